@@ -38,6 +38,9 @@ P['st_ifnest'] = 'fn cnt(x:float){\n  self + x\n}\nfn dsp(a:(float,float))->floa
 P['st_stereo'] = 'fn cnt(x:float){\n  self + x\n}\nfn dsp(a:(float,float))->(float,float){\n  (cnt(a.0), mem(a.1))\n}\n'
 P['st_fbdelay'] = 'fn fb(x:float, g:float){\n  delay(5.0, x + self * g, 3.0)\n}\nfn dsp(a:float)->float{\n  fb(a, 0.5)\n}\n'
 P['st_delaymem'] = 'fn dm(x:float){\n  delay(3.0, mem(x), 1.0)\n}\nfn dsp(a:float)->float{\n  dm(a) + dm(a + 1.0)\n}\n'
+P['st_delayfrac'] = 'fn cnt(x:float){\n  self + x\n}\nfn dsp(a:float)->float{\n  let d = delay(2.5, a, 1.0)\n  d + cnt(1.0)\n}\n'
+P['st_delayfraclast'] = 'fn dsp(a:(float,float))->float{\n  mem(a.0) + delay(3.25, a.0, a.1)\n}\n'
+P['st_selfnested'] = 'fn acc(x:float){\n  let ((p, q), r) = self\n  ((p + x, q + 1.0), r + p)\n}\nfn cnt(x:float){\n  self + x\n}\nfn dsp(a:float)->float{\n  let ((p, q), r) = acc(a)\n  p + q + r + cnt(1.0)\n}\n'
 # ---- G_ctrl -------------------------------------------------------------------------------------------------
 P['ct_let'] = 'fn dsp(a:(float,float))->float{\n  let x = a.0 * 2.0\n  let y = x + a.1\n  let z = y * y\n  z - x\n}\n'
 P['ct_tuple'] = 'fn swap(p:(float,float)){\n  let (x, y) = p\n  (y, x)\n}\nfn dsp(a:(float,float))->(float,float){\n  swap(a)\n}\n'
@@ -49,6 +52,12 @@ P['ct_stereoout'] = 'fn dsp(a:float)->(float,float){\n  (a * 0.5, a + 1.0)\n}\n'
 P['ct_ifchain'] = 'fn dsp(a:float)->float{\n  if (a < 0.0) 0.0 - a else if (a < 1.0) a * a else 1.0\n}\n'
 P['ct_noin'] = 'fn dsp()->float{\n  1.0 + 2.0 * 3.0\n}\n'
 P['ct_arrset'] = 'fn dsp(a:(float,float))->float{\n  let arr = [1.0, 2.0, 3.0]\n  arr[a.0] + arr[a.1]\n}\n'
+P['ct_ifseq'] = 'fn dsp(a:float)->float{\n  let p = if (a) 1.0 else 2.0\n  let q = if (a) 10.0 else 20.0\n  p + q\n}\n'
+P['ct_ifseq3'] = 'fn dsp(a:(float,float))->float{\n  let p = if (a.0) 1.0 else 2.0\n  let q = if (a.1) 10.0 else 20.0\n  let r = if (a.0 - a.1) 100.0 else 200.0\n  p + q + r\n}\n'
+P['ct_ifinthen'] = 'fn dsp(a:(float,float))->float{\n  if (a.0) { if (a.1) 1.0 else 2.0 } else 3.0\n}\n'
+P['ct_ifinelse'] = 'fn dsp(a:(float,float))->float{\n  if (a.0) 1.0 else { if (a.1) 2.0 else 3.0 }\n}\n'
+P['ct_ifcall'] = 'fn pick(c:float, x:float){\n  if (c) x else 0.0 - x\n}\nfn dsp(a:(float,float))->float{\n  let p = pick(a.0, 1.0)\n  let q = if (a.1) pick(a.1, 2.0) else 5.0\n  p + q\n}\n'
+P['ct_ifafterstate'] = 'fn cnt(x:float){\n  self + x\n}\nfn dsp(a:float)->float{\n  let c = cnt(1.0)\n  let p = if (a) c else 0.0\n  let q = if (a - 1.0) 10.0 else 20.0\n  p + q\n}\n'
 # ---- G_cls --------------------------------------------------------------------------------------------------
 P['cl_hof'] = 'fn apply(f:(float)->float, x:float){\n  f(x)\n}\nfn dsp(a:float)->float{\n  apply(|x| x * 3.0, a)\n}\n'
 P['cl_capture'] = 'fn dsp(a:(float,float))->float{\n  let k = a.0\n  let f = |x| x * k + 1.0\n  f(a.1)\n}\n'
